@@ -650,6 +650,30 @@ def c06(tier, seed):
     expect = ['removed_job 1', 'table [id=1 jid=1 gid=10 status=Running bg=1 pids=[10] stopped=[]] [id=2 jid=2 gid=40 status=Running bg=1 pids=[40] stopped=[]] '
               '[id=3 jid=3 gid=30 status=Running bg=1 pids=[30] stopped=[]]']
     out.append({'via': 'hook', 'script': script, 'expect': expect, 'area': 'job-table:smallest-free-id', 'id': 'reuse id 2'})
+    # Stopped exactly when all live members are stopped, under member-wise events
+    out += [
+        {'via': 'hook', 'script': ['insert 10 10 1', 'insert 10 11 1', 'jc_member_stopped 10 10', 'jc_member_stopped 11 10', 'dump', 'jc_member_continued 10 10', 'dump'],
+         'expect': ['table [id=1 jid=1 gid=10 status=Stopped bg=1 pids=[10, 11] stopped=[10, 11]]', 'table [id=1 jid=1 gid=10 status=Running bg=1 pids=[10, 11] stopped=[11]]'],
+         'area': 'job-table:status:member-continued', 'id': 'two stopped, one continues'},
+        {'via': 'hook', 'script': ['insert 10 10 1', 'insert 10 11 1', 'jc_member_stopped 11 10', 'dump', 'jc_done 10 10', 'dump'],
+         'expect': ['table [id=1 jid=1 gid=10 status=Running bg=1 pids=[10, 11] stopped=[11]]', 'table [id=1 jid=1 gid=10 status=Stopped bg=1 pids=[11] stopped=[11]]'],
+         'area': 'job-table:status:last-running-member-exits', 'id': 'running member exits, stopped member remains'},
+        {'via': 'hook', 'script': ['insert 10 10 1', 'insert 10 11 1', 'insert 10 12 1', 'jc_member_stopped 10 10', 'jc_done 10 10', 'jc_member_stopped 11 10', 'dump'],
+         'expect': ['table [id=1 jid=1 gid=10 status=Running bg=1 pids=[11, 12] stopped=[11]]'],
+         'area': 'job-table:status:stale-stopped-entry', 'id': 'stopped member dies, another stops, a third still runs'},
+    ]
+    # the foreground wait returns when every member has exited or is stopped, whatever the order of the events; status = last member's
+    waits = [
+        (['20,2,19', '20,3,0', '20,0,0', '21,0,7'], 'wait_fg status=7 pending=0'),
+        (['21,0,7', '20,0,0'], 'wait_fg status=7 pending=0'),
+        (['20,0,3', '21,0,0'], 'wait_fg status=0 pending=0'),
+        (['21,2,19', '21,3,0', '20,0,0', '21,0,5'], 'wait_fg status=5 pending=0'),
+        (['20,0,0', '21,1,9'], 'wait_fg status=137 pending=0'),
+        (['20,0,0', '21,0,4', '99,0,1'], 'wait_fg status=4 pending=1'),
+    ]
+    for ev, exp in waits:
+        out.append({'via': 'hook', 'script': ['insert 20 20 0', 'insert 20 21 0', 'events ' + ' '.join(ev), 'wait_fg 20 20 21'], 'expect': [exp],
+                    'area': 'wait:returns-when-every-member-settled', 'id': 'events ' + ' '.join(ev)})
     return out
 
 
